@@ -157,6 +157,9 @@ func cmdCheck(args []string) int {
 		results = append(results, res)
 		allObls = append(allObls, res.Obls...)
 	}
+	if os.Getenv("GOVC_TIMING") != "" {
+		fmt.Fprintf(os.Stderr, "generation: %.1fs since start\n", time.Since(t0).Seconds())
+	}
 	// lemmas
 	lemObls, lemErr := e.lemmaObligations(*prop)
 	allObls = append(allObls, lemObls...)
@@ -168,6 +171,25 @@ func cmdCheck(args []string) int {
 		cfg.Workers = 5
 	}
 	e.Solve(allObls, cfg)
+	if os.Getenv("GOVC_TIMING") != "" {
+		fmt.Fprintf(os.Stderr, "solved: %.1fs since start\n", time.Since(t0).Seconds())
+		so := append([]*Obligation{}, allObls...)
+		sort.Slice(so, func(i, j int) bool {
+			a, b := 0.0, 0.0
+			if so[i].Result != nil {
+				a = so[i].Result.Seconds
+			}
+			if so[j].Result != nil {
+				b = so[j].Result.Seconds
+			}
+			return a > b
+		})
+		for i := 0; i < len(so) && i < 12; i++ {
+			if so[i].Result != nil {
+				fmt.Fprintf(os.Stderr, "  slow %.1fs %s %s/%s\n", so[i].Result.Seconds, so[i].Name, so[i].Result.Solver, so[i].Result.Phase)
+			}
+		}
+	}
 
 	known := loadKnown(filepath.Join(*vdir, "known_findings.json"))
 	violations := 0
